@@ -4,124 +4,12 @@
 package main
 
 import (
-	"fmt"
 	"os"
 	"sort"
 	"strings"
 
 	"github.com/openconfig/gnmi/zz_verif/vh"
 )
-
-type gen struct {
-	r  *vh.Rand
-	ts int64
-}
-
-func (g *gen) nextTS() int64 {
-	if g.ts > 0 && g.r.Chance(1, 40) {
-		return g.ts // same timestamp again: the stale / "different value at same timestamp" branches
-	}
-	g.ts += 1 + int64(g.r.Intn(3))
-	return g.ts
-}
-
-var dataElems = []Elem{el("a"), el("b"), el("c"), el("b", "k", "1"), el("b", "k", "2"), el("c", "x", "1", "y", "2"), el("c", "y", "1", "x", "2")}
-var queryElems = []Elem{el("a"), el("b"), el("c"), el("*"), el("b", "k", "1"), el("b", "k", "*"), el("c", "x", "1", "y", "2"), el("c", "x", "*", "y", "2"), el("*", "k", "2")}
-
-func (g *gen) origin(wNone, wOc, wFoo int) string {
-	return []string{"", "oc", "foo"}[g.r.Pick(wNone, wOc, wFoo)]
-}
-
-func (g *gen) dataPath(min, max int) []Elem {
-	n := min + g.r.Intn(max-min+1)
-	out := make([]Elem, n)
-	for i := range out {
-		out[i] = dataElems[g.r.Pick(6, 5, 4, 3, 2, 2, 1)]
-	}
-	return out
-}
-
-func (g *gen) queryPath(max int) []Elem {
-	n := g.r.Intn(max + 1)
-	out := make([]Elem, n)
-	for i := range out {
-		out[i] = queryElems[g.r.Pick(6, 5, 3, 6, 2, 1, 1, 1, 1)]
-	}
-	return out
-}
-
-func samePath(a, b []Elem) bool { return fmt.Sprint(a) == fmt.Sprint(b) }
-
-// dataNoti makes one notification for target t: a single update, several
-// updates (and deletes), an atomic container, or a delete.
-func (g *gen) dataNoti(t string, pathOrigins bool) *Noti {
-	r := g.r
-	n := &Noti{TS: g.nextTS(), Prefix: GPath{Target: t, Origin: g.origin(6, 3, 1)}}
-	if r.Chance(1, 3) {
-		n.Prefix.Elems = g.dataPath(1, 1)
-	}
-	upd := func() Upd {
-		u := Upd{Path: GPath{Elems: g.dataPath(1, 2)}, Val: int64(r.Intn(5))}
-		if pathOrigins && n.Prefix.Origin == "" && r.Chance(1, 6) {
-			u.Path.Origin = g.origin(0, 2, 1)
-		}
-		return u
-	}
-	switch r.Pick(55, 15, 12, 18) {
-	case 0:
-		n.Upds = []Upd{upd()}
-	case 1:
-		k := 2 + r.Intn(2)
-		for len(n.Upds) < k {
-			u := upd()
-			dupl := false
-			for _, o := range n.Upds {
-				if samePath(o.Path.Elems, u.Path.Elems) {
-					dupl = true
-				}
-			}
-			if !dupl {
-				n.Upds = append(n.Upds, u)
-			}
-		}
-		if r.Chance(1, 3) {
-			n.Dels = []GPath{{Elems: g.dataPath(1, 2)}}
-		}
-	case 2:
-		n.Atomic = true
-		if len(n.Prefix.Elems) == 0 {
-			n.Prefix.Elems = g.dataPath(1, 2)
-		}
-		k := 1 + r.Intn(3)
-		for i := 0; i < k; i++ {
-			n.Upds = append(n.Upds, Upd{Path: GPath{Elems: g.dataPath(1, 2)}, Val: int64(r.Intn(5))})
-		}
-	case 3:
-		d := GPath{Elems: g.dataPath(0, 2)}
-		for i := range d.Elems {
-			if r.Chance(1, 4) {
-				d.Elems[i] = el("*")
-			}
-		}
-		if len(d.Elems) == 0 && len(n.Prefix.Elems) == 0 && n.Prefix.Origin == "" {
-			d.Elems = []Elem{el("*")}
-		}
-		n.Dels = []GPath{d}
-	}
-	return n
-}
-
-func (g *gen) cacheStep(targets []string, pathOrigins bool, allowRemove bool) Step {
-	t := targets[g.r.Intn(len(targets))]
-	if allowRemove && g.r.Chance(1, 25) {
-		g.ts++
-		return Step{K: "remove", Target: t, Now: g.ts}
-	}
-	if g.r.Chance(1, 60) {
-		t = "tx" // unknown target: GnmiUpdate returns an error
-	}
-	return Step{K: "update", N: g.dataNoti(t, pathOrigins)}
-}
 
 func (g *gen) request(targets []string, mode int) *Req {
 	r := g.r
@@ -143,8 +31,10 @@ func (g *gen) request(targets []string, mode int) *Req {
 		pf = nil
 	}
 	if pf != nil {
-		pf.Origin = g.origin(6, 3, 1)
-		if r.Chance(1, 4) {
+		if r.Chance(1, 2) {
+			pf.Origin = g.requestOrigin()
+		}
+		if r.Chance(1, 5) {
 			pf.Elems = g.queryPath(1)
 		}
 	}
@@ -164,7 +54,7 @@ func (g *gen) request(targets []string, mode int) *Req {
 				p.Origin = "oc" // origin in both: CompletePath fails
 			}
 		} else {
-			p.Origin = g.origin(5, 3, 2)
+			p.Origin = g.requestOrigin()
 		}
 		rq.Subs = append(rq.Subs, p)
 	}
@@ -333,7 +223,7 @@ func main() {
 		nrand = 40000
 	}
 	for i := 0; i < nrand; i++ {
-		g := &gen{r: r.Fork()}
+		g := newGen(r.Fork())
 		switch g.r.Pick(42, 52, 6) {
 		case 0:
 			e.add("random-once", g.randomCase(1, o.Thorough()))
